@@ -134,10 +134,25 @@ def check(run):
     imp = imps[0]
     env_imp = common.block_env(lp.body, common.enclosing_stmt(imp)) or {}
     env_imp = {k: v for k, v in env_imp.items() if k not in (INC, EXC, MI)}
-    az = G.Atomizer(rename={INC: "INCLUDE", EXC: "EXCLUDE"}, subst=env_imp, rewrite=[(f"{MI}.name", "NAME")])
+    # a local that is only the include / exclude argument turned into a set-like container (same members, same truth value) is that argument
+    ren = {INC: "INCLUDE", EXC: "EXCLUDE"}
+    for st_ in ga.node.body:
+        if st_ is lp:
+            break
+        if isinstance(st_, ast.Assign) and len(st_.targets) == 1 and isinstance(st_.targets[0], ast.Name) and st_.targets[0].id not in (INC, EXC):
+            v_ = st_.value
+            names_ = {x.id for x in ast.walk(v_) if isinstance(x, ast.Name)} - {"frozenset", "set", "tuple", "list"}
+            shape_ok = all(isinstance(x, (ast.Name, ast.Load, ast.IfExp, ast.BoolOp, ast.Or, ast.Tuple, ast.List, ast.Set)) or
+                           (isinstance(x, ast.Call) and isinstance(x.func, ast.Name) and x.func.id in ("frozenset", "set", "tuple", "list") and len(x.args) <= 1 and not x.keywords) or
+                           (isinstance(x, (ast.Tuple, ast.List, ast.Set)) and not x.elts) for x in ast.walk(v_))
+            if shape_ok and len(names_) == 1 and next(iter(names_)) in (INC, EXC) and not any(isinstance(x, (ast.Tuple, ast.List, ast.Set)) and x.elts for x in ast.walk(v_)):
+                ren[st_.targets[0].id] = ren[next(iter(names_))]
+    az = G.Atomizer(rename=ren, subst={k: v for k, v in env_imp.items() if k not in ren}, rewrite=[(f"{MI}.name", "NAME")])
     pc = G.reach(lp.body, common.enclosing_stmt(imp), az)
     spec = G.Atomizer().formula(common.spec_expr(SPEC.C18_FILTER))
-    ok, cm = G.equivalent(pc, spec)
+    # membership in a container implies that the container is non-empty
+    member_fact = G.Atomizer().formula(common.spec_expr("(not (NAME in INCLUDE) or INCLUDE) and (not (NAME in EXCLUDE) or EXCLUDE)"))
+    ok, cm = G.equivalent(pc, spec, assuming=member_fact)
     run.ob("R3-filter", "registry.get_analyzers/filter", ok, w(imp),
            "a module is imported iff (no include list or its name is included) and it is not excluded",
            f"filter is {G.show(pc)}; differs from the statement at {G.show_model(cm) if cm else ''}", mech="truth table")
@@ -233,19 +248,24 @@ def check(run):
             # keywords = set(file.read().splitlines()) ; discard(b"")
             KWV = None
             split_ok = False
-            for n in ast.walk(floop):
+            from ..model import own_nodes as _own
+            for n in _own(floop):
                 if isinstance(n, ast.Assign) and isinstance(n.targets[0], ast.Name):
                     v = peel_order(n.value)
                     if isinstance(v, ast.Call) and isinstance(v.func, ast.Name) and v.func.id in ("set", "frozenset", "list") and v.args:
                         v = v.args[0]
                     v = peel_order(v)
+                    via_comp = False
                     if isinstance(v, (ast.SetComp, ast.ListComp, ast.GeneratorExp)) and len(v.generators) == 1 and isinstance(v.generators[0].target, ast.Name) and \
                             common.is_name(v.elt, v.generators[0].target.id):
                         v = peel_order(v.generators[0].iter)      # {line for line in f.read().splitlines() if line}
+                        via_comp = True
                     if isinstance(v, ast.Call) and isinstance(v.func, ast.Attribute) and v.func.attr == "splitlines" and not v.args and \
                             isinstance(v.func.value, ast.Call) and isinstance(v.func.value.func, ast.Attribute) and v.func.value.func.attr == "read":
                         KWV = n.targets[0].id
                         split_ok = True
+                    elif via_comp and isinstance(v, ast.Name) and KWV is not None and v.id == KWV and n.targets[0].id != KWV:
+                        KWV = n.targets[0].id       # lines = f.read().splitlines(); keywords = sorted({l for l in lines if l})
             run.ob("R4-keyword-walk", "registry.get_keywords/splitlines", split_ok, w(floop), "keywords are the lines of the file (read().splitlines(): CR LF safe)",
                    "keyword list is not file.read().splitlines()", mech="call-shape match")
             blank_ok = False
